@@ -19,6 +19,7 @@ import numpy as np
 from hypothesis import strategies as st
 
 from vf import lattice as lt
+from vf import x_sides as xs
 from vf.refmodel import HEX_EDGES, HEX_SIDES, rodrigues
 
 warnings.simplefilter("ignore")
@@ -42,7 +43,6 @@ SETTING_VALUES = {
     "checkFaceCorrespondence": ["false", None],
     "verbose": ["true", None],
 }
-HEAVY = {"cylinder": 12, "hemisphere": 16}
 
 
 def centre(e: int) -> List[float]:
@@ -136,11 +136,6 @@ def entity(draw, e: int, kind: str):
 _count = st.integers(1, 7)
 
 
-def _stack_families(ent):
-    """(x families by ix, y by iy, z by tier): operation index of a stack is tier*ny*nx + iy*nx + ix"""
-    return ent["nx"], ent["ny"], ent["repeats"]
-
-
 def plan_chops(draw, ent, deleted: List[int], force_all: bool) -> None:
     """Adds a well-posed chop plan to the entity spec.  `deleted`: operation indices of this entity that the script
     deletes; then (and when force_all) every surviving operation is chopped in all three directions with the count of
@@ -185,6 +180,20 @@ def plan_chops(draw, ent, deleted: List[int], force_all: bool) -> None:
 
 KIND_WEIGHTS = ["box", "box", "cluster", "cluster", "cluster", "extrude", "revolve", "wedge", "stack", "stacked",
                 "cylinder", "ring", "hemisphere"]
+
+
+def internal_faces(lat) -> List[Tuple[int, int, int]]:
+    """(cell a, cell b, axis) with b the +axis neighbour of a, both in the cluster"""
+    dims, sel = lat["dims"], set(lat["cells"])
+    out = []
+    for c in sorted(sel):
+        ijk = lt.cell_ijk(dims, c)
+        for ax in range(3):
+            n = list(ijk)
+            n[ax] += 1
+            if n[ax] < dims[ax] and lt.cell_index(dims, *n) in sel:
+                out.append((c, lt.cell_index(dims, *n), ax))
+    return out
 
 
 def _ops_of(entities) -> List[Tuple[int, int]]:
@@ -250,8 +259,27 @@ def program(draw, kinds: Optional[List[str]] = None, max_entities: int = 3, max_
             "project_corner", "geometry", "merge", "default_patch", "modify_patch", "modify_patch", "setting"]
         if not only and ent["kind"] in ("cylinder", "ring", "hemisphere"):
             menu = menu + ["shape_patch"] * 4
+        if ent["kind"] == "cluster" and internal_faces(ent["lat"]):
+            menu = menu + ["both_sides"] * 2
         what = draw(st.sampled_from(menu))
-        if what == "set_patch":
+        if what == "both_sides":
+            # the two operations that share an internal face declare the same thing on it (written once)
+            lat = ent["lat"]
+            a, b, ax = draw(st.sampled_from(internal_faces(lat)))
+            ia, ib = lat["cells"].index(a), lat["cells"].index(b)
+            sa = xs.local_side_name(lat["orient"][ia], 2 * ax + 1)
+            sb = xs.local_side_name(lat["orient"][ib], 2 * ax)
+            if draw(st.booleans()):
+                name = draw(st.sampled_from(PATCHES))
+                named.append(name)
+                script.append({"do": "set_patch", "ent": e, "op": ia, "sides": sa, "name": name})
+                script.append({"do": "set_patch", "ent": e, "op": ib, "sides": sb, "name": name})
+            else:
+                lb = pick_label(False)
+                pts = draw(st.booleans())
+                script.append({"do": "project_side", "ent": e, "op": ia, "side": sa, "label": lb, "edges": False, "points": pts})
+                script.append({"do": "project_side", "ent": e, "op": ib, "side": sb, "label": lb, "edges": False, "points": False})
+        elif what == "set_patch":
             sides = _sides_for(ent, what)
             if not sides:
                 continue
@@ -269,7 +297,7 @@ def program(draw, kinds: Optional[List[str]] = None, max_entities: int = 3, max_
             script.append({"do": what, "ent": e, "which": draw(st.sampled_from(opts)), "name": draw(st.sampled_from(PATCHES))})
             named.append(script[-1]["name"])
         elif what == "zone":
-            whole = ent["kind"] in ("cylinder", "ring", "hemisphere") and draw(st.booleans())
+            whole = ent["kind"] in ("cylinder", "ring", "hemisphere") and draw(st.integers(0, 3)) > 0
             script.append({"do": what, "ent": e, "op": None if whole else i, "name": draw(st.sampled_from(ZONES))})
         elif what == "project_side":
             sides = _sides_for(ent, what)
@@ -298,6 +326,8 @@ def program(draw, kinds: Optional[List[str]] = None, max_entities: int = 3, max_
         elif what == "geometry":
             name = draw(st.sampled_from(ALL_LABELS))
             script.append({"do": what, "name": name, "props": draw(st.sampled_from(GEOMETRY[name]))})
+            if draw(st.integers(0, 2)) == 0:  # declared twice
+                script.append({"do": what, "name": name, "props": draw(st.sampled_from(GEOMETRY[name]))})
         elif what == "merge":
             # textual pair only: the slave name is never assigned to a side, so connectivity is not affected
             script.append({"do": what, "master": draw(st.sampled_from(PATCHES)), "slave": "ghost%d" % draw(st.integers(0, 1))})
@@ -307,6 +337,9 @@ def program(draw, kinds: Optional[List[str]] = None, max_entities: int = 3, max_
             target = draw(st.sampled_from(named)) if named and draw(st.integers(0, 4)) > 0 else draw(st.sampled_from(PATCHES))
             script.append({"do": what, "name": target, "kind": draw(st.sampled_from(KINDS)),
                            "settings": draw(st.one_of(st.none(), st.sampled_from(PATCH_SETTINGS)))})
+            if draw(st.integers(0, 2)) == 0:  # modified again (explicit settings - also an empty list - replace, None keeps)
+                script.append({"do": what, "name": target, "kind": draw(st.sampled_from(KINDS)),
+                               "settings": draw(st.sampled_from([None, [], [], ["inGroups (walls)"]]))})
         elif what == "setting":
             key = draw(st.sampled_from(sorted(SETTING_VALUES)))
             script.append({"do": what, "key": key, "value": draw(st.sampled_from(SETTING_VALUES[key]))})
@@ -500,7 +533,8 @@ class Model:
         self.side_proj: Dict[Tuple[int, int], Dict[str, str]] = {}
         self.corner_labels: Dict[Tuple[int, int], Dict[int, List[str]]] = {}
         self.edge_proj: List[Tuple[Tuple[int, int], int, int, str]] = []
-        self.geometry: Dict[str, List[str]] = {}
+        self.geometry: Dict[str, List[str]] = {}  # name -> properties of the last declaration
+        self.geometry_all: Dict[str, List[List[str]]] = {}  # name -> every declaration
         self.merges: List[Tuple[str, str]] = []
         self.default: Optional[Dict[str, str]] = None
         self.patch_kind: Dict[str, str] = {}
@@ -584,6 +618,7 @@ def interpret(case, points: Dict[Tuple[int, int], np.ndarray]) -> Model:
             m.corner_labels[(s["ent"], s["op"])].setdefault(s["corner"], []).extend(lbs)
         elif do == "geometry":
             m.geometry[s["name"]] = list(s["props"])
+            m.geometry_all.setdefault(s["name"], []).append(list(s["props"]))
         elif do == "merge":
             m.merges.append((s["master"], s["slave"]))
         elif do == "default_patch":
